@@ -47,21 +47,32 @@ class FakePopen:
         if o.get("oserror"):
             raise OSError(2, "No such file or directory")
         self.o = o
+        self.com = list(com_list)
         self.returncode = None
 
     def communicate(self, *a, **k):
         self.returncode = self.o.get("rc", 0)
-        Script.current_output = self.o.get("output", "")
+        # the tool writes its result into the file named after --output; a run that produces
+        # nothing leaves that file as it was (output None) - a fresh temporary file is empty
+        out = self.o.get("output", "")
+        name = None
+        if "--output" in self.com:
+            name = self.com[self.com.index("--output") + 1]
+        if out is not None and name in FakeNTF.FILES:
+            FakeNTF.FILES[name].content = out
         return SBytes(self.o.get("out", "")), SBytes(self.o.get("err", ""))
 
 
 class FakeNTF:
     n = 0
+    FILES = {}
 
     def __init__(self, suffix="", delete=True, **kw):
         FakeNTF.n += 1
         self.name = "/nonexistent/verif-out-%d%s" % (FakeNTF.n, suffix)
-        Script.current_output = ""
+        self.content = ""
+        self.closed = False
+        FakeNTF.FILES[self.name] = self
 
     def __enter__(self):
         return self
@@ -73,12 +84,21 @@ class FakeNTF:
         pass
 
     def read(self):
-        return SBytes(Script.current_output)
+        return SBytes(self.content)
+
+    def truncate(self, *a):
+        self.content = ""
+
+    def tell(self):
+        return 0
 
     def write(self, data):
         pass
 
     def close(self):
+        self.closed = True
+
+    def flush(self):
         pass
 
 
